@@ -46,8 +46,8 @@ TRUSTED = ["virtual-clock event loop and fake-socket UDP stack of the harness (v
 ASSUMPTIONS = [
     "handler exceptions are Exception subclasses or CancelledError; KeyboardInterrupt/SystemExit stop the process",
     "requests carry no Block1/Block2/Observe options and responses fit one message (C06/C08 cover those)",
-    "a RenderableError's repr() and to_message() are the only application code run while converting it; "
-    "to_message returning a Message without a code or with a request code is outside the quantifier",
+    "a RenderableError's repr() and to_message() are the only application code run while converting it "
+    "(either failing, or to_message returning anything but a message with a response code, is a failing renderer)",
     "peers acknowledge separate CON responses (otherwise the message layer gives up on the peer, C03)",
 ]
 
